@@ -267,6 +267,9 @@ def main(argv=None):
     for e in known:
         if e.get("property") == prop and e.get("status") == "known" and e["id"] in known_confirmed:
             print(f"KNOWN-FINDING: property={prop} {e['what']} [instance={e.get('replay_instance')} obligation={e.get('obligation')} input={json.dumps(e['input'])}]")
+        elif e.get("property") == prop and e.get("status") == "known":
+            # the recorded input no longer fails (repaired code, or an input outside the instance's current bounds): say so, suppress nothing for it
+            print(f"NOTE: recorded finding {e['id']} did not reproduce on its recorded input (stale entry?)")
     for r, item, path in violations:
         print(f"VIOLATION property={prop} replay={path}")
         print(f"  instance={r['instance']} obligation={item['label']} inputs={json.dumps(item['inputs'])}")
